@@ -27,6 +27,9 @@ func handlerScope(c *cx) ([]*eng.Fn, map[*eng.Fn]string) {
 
 func runC06(p *eng.Prog, r *eng.Report, tier string) {
 	c := &cx{p, r, tier}
+	r18HandOffComparesWholeNames(c, "C06.42")
+	r18ClosersReleaseOnEveryPath(c, "C06.40")
+	c.r.Floor("C06.41", "goroutines that wait for the answer to a stanza they send", r18WaitersEndWithTheCall(c, "C06.41"), 2)
 	c.r.Floor("C06.39", "returns with a deferred release pending", deferredReleaseFindsTheLockHeld(c, "C06.39", ""), 20)
 	r17BorrowedReaderNotClosed(c, "C06.38")
 	// C06.32 (= C09.17 / C10.10): no cycle in the lock-order graph: a deadlock between a
